@@ -149,8 +149,11 @@ inductive KBody where
   | delegate (to : String)
   /-- `Self(k256::FieldElement::conditional_select(&a.0, &b.0, choice))` -/
   | select
-  /-- `Self(fe)` for a caller-supplied `k256::FieldElement` (any magnitude) -/
+  /-- `Self(fe)` for a caller-supplied `k256::FieldElement` (any magnitude) stored as is: the body
+  of `From<k256::FieldElement>` before the repair (finding `k256.Fp:from-unnormalized`) -/
   | foreign
+  /-- `Self(fe.normalize())`: the repaired body — any magnitude in, normalised out -/
+  | foreignNorm
   /-- anything else: not understood, fails `k256_wrapper_bodies_normalise` -/
   | unknown (text : String)
   deriving Repr, DecidableEq
@@ -189,6 +192,7 @@ def KBody.run (a b : KMag) : KBody → Option KMag
   | .delegate _ => some a
   | .select => some ⟨max a.mag b.mag, a.normalized && b.normalized⟩
   | .foreign => some a
+  | .foreignNorm => some a.normalize
   | .unknown _ => none
 
 /-- Reading a row of the generated table `Gen.K256Wrapper.bodies`. -/
@@ -207,6 +211,7 @@ def KBody.ofGen (row : String × String × String) : KBody :=
   else if kind = "delegate" then .delegate arg
   else if kind = "select" then .select
   else if kind = "foreign" then .foreign
+  else if kind = "foreignNorm" then .foreignNorm
   else .unknown arg
 
 /-- A body is *safe* if on weakly normalised operands (magnitude ≤ 1 — everything the wrapper
